@@ -190,7 +190,13 @@ func (f *frame) applyContract(ct *Contract, callee *ssa.Function, args []Val, st
 		}
 		nh = c.restoreGlobals(st.heap, nh, fm)
 	}
-	nh = f.restoreLocals(st.heap, nh)
+	{
+		var siteInstr ssa.Instruction
+		if si, ok := site.(ssa.Instruction); ok {
+			siteInstr = si
+		}
+		nh = f.restoreLocals(st.heap, nh, siteInstr)
+	}
 	na := c.fresh("alloc", "Int")
 	c.assume(reach, ge(na, st.alloc.term()))
 	nst := State{heap: nh, alloc: allocPtr{base: na}}
